@@ -332,6 +332,29 @@ func streamEq(o *Out, r *rand.Rand, n int, thorough bool) {
 	// numbers of every Go kind a host can bind: equal exactly when Go's == on the common value says so, one answer in every form
 	hostNums := map[string]interface{}{"up5": uintptr(5), "up7": uintptr(7), "u8": uint8(5), "u64": uint64(5), "i8": int8(5), "i16": int16(7), "f32": float32(5), "i5": int64(5), "i7": int64(7)}
 	hostVal := map[string]float64{"up5": 5, "up7": 7, "u8": 5, "u64": 5, "i8": 5, "i16": 7, "f32": 5, "i5": 5, "i7": 7}
+	// unsigned values above the int64 range among themselves and against the largest int64: different numbers are different
+	bigU := map[string]interface{}{"ubig1": uint64(1) << 63, "ubig2": uint64(1)<<63 + 1, "umax": ^uint64(0), "ubig3": uint(1)<<63 + 2, "imax": int64(9223372036854775807), "umaxi": uint64(9223372036854775807)}
+	bigRank := map[string]int{"ubig1": 1, "ubig2": 2, "umax": 4, "ubig3": 3, "imax": 0, "umaxi": 0}
+	var bn []string
+	for k := range bigU {
+		bn = append(bn, k)
+	}
+	sort.Strings(bn)
+	for _, l := range bn {
+		for _, rr := range bn {
+			want := bigRank[l] == bigRank[rr]
+			for _, form := range []string{l + " == " + rr, "!(" + l + " != " + rr + ")", l + " in [" + rr + "]", "switch " + l + " {\ncase " + rr + ":\ntrue\ndefault:\nfalse\n}"} {
+				out := runScript(form, bigU, nil)
+				o.Sum.Evaluations++
+				o.Sum.Hist["big-unsigned"]++
+				got, ok := asBool(out)
+				if !ok || got != want {
+					o.Fail(Failure{Oracle: "go-eq", Key: "eq-big-unsigned", Input: form + fmt.Sprintf("  with %s = %T(%v), %s = %T(%v)", l, bigU[l], bigU[l], rr, bigU[rr], bigU[rr]),
+						Detail: fmt.Sprintf("the numbers are equal: %v; the script says %v", want, out.answer(vals.Encode))})
+				}
+			}
+		}
+	}
 	var hn []string
 	for k := range hostNums {
 		hn = append(hn, k)
